@@ -431,6 +431,26 @@ class PG:
                         work.append(m)
         return ok, len(starts)
 
+    def after_edge_never_reaches(self, edge_pred, bad_pred):
+        """For every edge accepted by edge_pred(lits): no block with bad_pred is reachable from its target.
+        Returns (ok, number of such edges)."""
+        starts = []
+        for n in range(len(self.nodes)):
+            for m, lits in self.edges[n] or []:
+                if lits and edge_pred(lits):
+                    starts.append(m)
+        seen = set()
+        work = list(starts)
+        while work:
+            n = work.pop()
+            if n in seen:
+                continue
+            seen.add(n)
+            if bad_pred(self.nodes[n][0]):
+                return False, len(starts)
+            work += [m for m, _ in self.edges[n] or []]
+        return True, len(starts)
+
     def block_reaches(self, src_block, dst_pred):
         """Is some block with dst_pred reachable (through >= 1 edge) from src_block?"""
         seen = set()
